@@ -52,6 +52,7 @@ class G:
         self.funcs = []      # (name, ret, [param types], variadic)
         self.in_loop = 0
         self.in_switch = 0
+        self.in_se = 0       # inside a statement expression: no jumps out of / labels into it (known finding C20-jump-out-of-stmt-expr)
         self.labels = []
         self.locals_struct = {}
 
@@ -184,7 +185,10 @@ class G:
             return self.call(t, d - 1)
         if k == 17:
             n = self.fresh()
-            return f'({{ {t} se_{n} = {e()}; {self.stmt(d - 1)} se_{n}; }})'
+            self.in_se += 1
+            st = self.stmt(d - 1)
+            self.in_se -= 1
+            return f'({{ {t} se_{n} = {e()}; {st} se_{n}; }})'
         if k == 18 and is_int and t != '_Bool' and t != 'enum E':
             bf = self.bitfield()
             return self.pick([f'(({t})({bf} = {e()}))', f'(({t})({bf} += {e()}))', f'(({t}){bf}++)', f'(({t})--{bf})'])
@@ -305,6 +309,8 @@ class G:
         if d <= 0:
             return f'{self.expr(self.pick(ARITH + STRUCTS + PTRS), 1)};'
         k = r.randrange(22)
+        if self.in_se and k in (6, 7, 8, 9, 10, 11):
+            k = 21
         if k == 0:
             s = f'if ({self.cond(d - 1)}) {self.stmt(d - 1)}'
             if self.chance(0.5):
@@ -393,6 +399,8 @@ class G:
                      f'_Alignas(32) char x{n}[5]; x{n}[0] = 1;', f'char x{n}[17]; x{n}[16] = 0;',
                      f'static char *x{n} = "str"; x{n}++;', f'static void *x{n}[] = {{&&lab_end, &&lab_end}}; goto *x{n}[{self.index(d - 1)}];',
                      f'static _Thread_local int x{n} = 2; x{n}++;', f'typeof(v_int) x{n} = 1; x{n}++;']
+            if self.in_se:
+                inits = [x for x in inits if 'goto' not in x]
             return '{ ' + self.pick(inits) + ' }'
         if k == 16:
             return f'(void){self.expr(self.pick(ARITH + STRUCTS + PTRS), d - 1)};'
